@@ -39,12 +39,17 @@ def isDelim (c : Char) : Bool := c = '/' || c = '?' || c = '#'
 
 def preprocess (u : Str) : Str := (u.dropWhile isC0OrSpace).filter (fun c => !isUnsafe c)
 
+def firstIsAsciiAlpha (url : Str) : Bool :=
+  match url.head? with
+  | some c => decide (c.toNat < 128) && c.isAlpha
+  | none => false
+
+/-- `i > 0 and url[0].isascii() and url[0].isalpha()` and every char of `url[:i]` is a scheme char -/
+def schemeOk (url : Str) (i : Nat) : Bool := decide (i > 0) && firstIsAsciiAlpha url && (url.take i).all schemeChar
+
 def splitScheme (url : Str) : Str × Str :=
   match findIdx (· = ':') url with
-  | some i =>
-    if decide (i > 0) && (match url.head? with | some c => decide (c.toNat < 128) && c.isAlpha | none => false)
-        && (url.take i).all schemeChar
-    then ((url.take i).map lowerAscii, url.drop (i+1)) else ([], url)
+  | some i => if schemeOk url i then ((url.take i).map lowerAscii, url.drop (i+1)) else ([], url)
   | none => ([], url)
 
 def splitNetloc (url : Str) : Str × Str :=
@@ -147,20 +152,28 @@ def unsplit (scheme netloc path query fragment : Str) : Str :=
   let url := if !query.isEmpty then url ++ ['?'] ++ query else url
   if !fragment.isEmpty then url ++ ['#'] ++ fragment else url
 
-def gemini : Str := "gemini".toList
+def gemini : Str := ['g', 'e', 'm', 'i', 'n', 'i']
 
-def parseUrl (env : Env) (url : Str) : Except Err Parsed := do
-  if url.isEmpty then throw Err.empty
-  let sp ← urlsplit env url
-  if sp.scheme.isEmpty then throw Err.noScheme
-  if sp.scheme ≠ gemini then throw Err.badScheme
-  let host ← match hostname env sp.netloc with | some h => pure h | none => throw Err.noHost
-  let (u, p) := userinfo sp.netloc
-  if (u.getD []).length > 0 ∨ (p.getD []).length > 0 then throw Err.userinfo
-  if !sp.fragment.isEmpty then throw Err.fragment
-  let port? ← portOf sp.netloc
-  let port := port?.getD 1965
-  let path := if sp.path.isEmpty then ['/'] else sp.path
-  let nl := if port ≠ 1965 then host ++ [':'] ++ natToStr port else host
-  pure { host, port, path, query := sp.query, normalized := unsplit gemini nl path sp.query sp.fragment }
+/-- the checks `parse_url` applies to the split result, in its order -/
+def parseSplit (env : Env) (sp : Split) : Except Err Parsed :=
+  if sp.scheme.isEmpty then .error .noScheme
+  else if sp.scheme ≠ gemini then .error .badScheme
+  else match hostname env sp.netloc with
+    | none => .error .noHost
+    | some host =>
+      if ((userinfo sp.netloc).1.getD []).length > 0 ∨ ((userinfo sp.netloc).2.getD []).length > 0 then .error .userinfo
+      else if !sp.fragment.isEmpty then .error .fragment
+      else match portOf sp.netloc with
+        | .error e => .error e
+        | .ok port? =>
+          let port := port?.getD 1965
+          let path := if sp.path.isEmpty then ['/'] else sp.path
+          let nl := if port ≠ 1965 then host ++ [':'] ++ natToStr port else host
+          .ok { host, port, path, query := sp.query, normalized := unsplit gemini nl path sp.query sp.fragment }
+
+def parseUrl (env : Env) (url : Str) : Except Err Parsed :=
+  if url.isEmpty then .error .empty
+  else match urlsplit env url with
+    | .error e => .error e
+    | .ok sp => parseSplit env sp
 end Url
